@@ -32,12 +32,41 @@ C_WS = [' ', '\t', '\n', '\r', '\x0c', '\x0b']
 def module_patterns(m):
     """{name: compiled pattern} for module-level `NAME = re.compile(<literal>[, flags])`"""
     out = {}
+    consts = {}
+
+    def fold(e):
+        """string constant expressions over module-level string constants: literals, +, %, names"""
+        if isinstance(e, ast.Constant) and isinstance(e.value, (str, int)):
+            return e.value
+        if isinstance(e, ast.Name) and e.id in consts:
+            return consts[e.id]
+        if isinstance(e, ast.BinOp) and isinstance(e.op, ast.Add):
+            a, b = fold(e.left), fold(e.right)
+            if isinstance(a, str) and isinstance(b, str):
+                return a + b
+        if isinstance(e, ast.BinOp) and isinstance(e.op, ast.Mod):
+            a = fold(e.left)
+            b = tuple(fold(x) for x in e.right.elts) if isinstance(e.right, ast.Tuple) else fold(e.right)
+            if isinstance(a, str) and b is not None and (not isinstance(b, tuple) or all(x is not None for x in b)):
+                return a % b
+        if isinstance(e, ast.Tuple):
+            return None
+        return None
     for st in m.tree.body:
+        if isinstance(st, ast.Assign) and len(st.targets) == 1 and isinstance(st.targets[0], ast.Name) and not isinstance(st.value, ast.Call):
+            try:
+                v = fold(st.value)
+            except Exception:
+                v = None
+            if isinstance(v, str):
+                consts[st.targets[0].id] = v
         if isinstance(st, ast.Assign) and len(st.targets) == 1 and isinstance(st.targets[0], ast.Name) and \
                 isinstance(st.value, ast.Call) and u(st.value.func) == 're.compile' and st.value.args:
             try:
-                pat = ast.literal_eval(st.value.args[0])
+                pat = fold(st.value.args[0])
             except Exception:
+                pat = None
+            if not isinstance(pat, str):
                 continue
             flags = 0
             if len(st.value.args) > 1:
